@@ -16,12 +16,13 @@ META = dict(
          "block fixes header root and witness commitment, the body is changed in every single way (duplication, dropped / swapped transaction, one witness "
          "stripped / altered / added, reserved value of wrong size, the 64-byte transaction), TLC proves 'reported <=> not the genuine body'. "
          "(b) MutatedBlocks models ProcessNewBlock for genuine blocks and same-header variants; TLC checks that no valid block is ever marked failed, a "
-         "variant stores and marks nothing and a genuine block is accepted and connected whatever came before; every transition of the graph (including "
+         "variant stores and marks nothing, is refused by compact-block reconstruction, and a genuine block is accepted and connected whatever came before; every transition of the graph (including "
          "'variant k came last' histories) is replayed on a real regtest ChainstateManager with really mined blocks and real witness spends; where the node "
          "differs from the prediction TLC evaluates the property on the observed step.",
     note="Injective constructor = 'no double-SHA256 collisions'. Node scenarios: 2 blocks (chain, fork, with an invalid control block) in quick, 3 in "
          "thorough; witness programs are P2WSH(OP_TRUE). The 64-byte ambiguity is covered through IsBlockMutated's no-coinbase branch only (table row built "
-         "from the mined triple of validation_tests.cpp). blockencodings.cpp (compact-block reconstruction) is not driven.",
+         "from the mined triple of validation_tests.cpp). Compact-block reconstruction (blockencodings.cpp) is driven with an empty mempool only: the delivered body is announced "
+         "as a compact block and filled from that body.",
     technique="TLA+ theorems over injective merkle terms + TLC-enumerated oracle tables evaluated with real SHA256d; TLC state graph of block/variant "
               "deliveries replayed on a real node, deviations judged by TLC on the observed step",
 )
